@@ -443,6 +443,7 @@ func ruleCount(c *Ctx, rule, pkg string) {
 
 func ruleComparators(c *Ctx, rule, pkg, method string) {
 	p := c.P
+	var dirs map[*types.Var]map[bool]AV
 	for _, fn := range c.prodFuncs(pkg) {
 		if fn.Parent() != nil || fn.Signature.Recv() == nil || fn.Name() != method {
 			continue
@@ -456,9 +457,22 @@ func ruleComparators(c *Ctx, rule, pkg, method string) {
 			continue
 		}
 		var fwd *types.Var
+		dirVal := map[bool]AV{true: avBool(true), false: avBool(false)}
 		for i := 0; i < st.NumFields(); i++ {
 			if st.Field(i).Name() == "forward" && types.Identical(st.Field(i).Type(), types.Typ[types.Bool]) {
 				fwd = st.Field(i)
+			}
+		}
+		if fwd == nil {
+			// the direction kept in another form (a two-valued named constant): the field the comparator's
+			// constructor fills from the sort field's IsAscending(), with the value it gets for each answer
+			if dirs == nil {
+				dirs = comparatorDirections(c, pkg)
+			}
+			for i := 0; i < st.NumFields(); i++ {
+				if d, has := dirs[st.Field(i).Origin()]; has {
+					fwd, dirVal = st.Field(i), d
+				}
 			}
 		}
 		if fwd == nil || len(fn.Params) != 3 {
@@ -466,12 +480,93 @@ func ruleComparators(c *Ctx, rule, pkg, method string) {
 		}
 		name := FnName(fn)
 		c.Analysed(name)
-		decideComparator(c, rule, fn, fwd)
+		decideComparator(c, rule, fn, fwd, dirVal)
 		_ = p
 	}
 }
 
-func decideComparator(c *Ctx, rule string, fn *ssa.Function, fwd *types.Var) {
+// comparatorDirections: the fields of comparator structs that newRowComparator fills from IsAscending() through a
+// conversion function of the module (sortDirectionOf(asc)), with the constant stored for true and for false.
+func comparatorDirections(c *Ctx, pkg string) map[*types.Var]map[bool]AV {
+	out := map[*types.Var]map[bool]AV{}
+	for _, fn := range c.prodFuncs(pkg) {
+		if fn.Name() != "newRowComparator" {
+			continue
+		}
+		for _, b := range fn.Blocks {
+			for _, in := range b.Instrs {
+				st, isSt := in.(*ssa.Store)
+				if !isSt {
+					continue
+				}
+				f, _ := fieldOfAddr(st.Addr)
+				if f == nil {
+					continue
+				}
+				// the conversion expanded in place: a join of two constants under a branch on IsAscending()
+				if phi, isPhi := st.Val.(*ssa.Phi); isPhi && len(phi.Edges) == 2 {
+					vals := map[bool]AV{}
+					for i, e := range phi.Edges {
+						k, isK := e.(*ssa.Const)
+						if !isK || k.Value == nil {
+							continue
+						}
+						// which way round the branch this edge came
+						blk, prev := phi.Block().Preds[i], phi.Block()
+						for steps := 0; steps < 4; steps++ {
+							if iff, isIf := blk.Instrs[len(blk.Instrs)-1].(*ssa.If); isIf {
+								if asc, isAsc := iff.Cond.(*ssa.Call); isAsc && invokeNamed(asc, "IsAscending") {
+									vals[blk.Succs[0] == prev] = avConst(k.Value)
+								}
+								break
+							}
+							if len(blk.Preds) != 1 {
+								break
+							}
+							blk, prev = blk.Preds[0], blk
+						}
+					}
+					if len(vals) == 2 && !constant.Compare(vals[true].C, token.EQL, vals[false].C) {
+						out[f.Origin()] = vals
+					}
+					continue
+				}
+				conv, isCall := st.Val.(*ssa.Call)
+				if !isCall || conv.Call.IsInvoke() || len(conv.Call.Args) != 1 {
+					continue
+				}
+				asc, isAsc := conv.Call.Args[0].(*ssa.Call)
+				if !isAsc || !invokeNamed(asc, "IsAscending") {
+					continue
+				}
+				sc := conv.Call.StaticCallee()
+				if sc == nil || sc.Blocks == nil || !inModule(sc) || len(sc.Params) != 1 {
+					continue
+				}
+				vals := map[bool]AV{}
+				for _, x := range []bool{true, false} {
+					x := x
+					res, err := Decide(sc, func(v ssa.Value) (AV, bool) {
+						if v == ssa.Value(sc.Params[0]) {
+							return avBool(x), true
+						}
+						return AV{}, false
+					}, nil)
+					if err == "" && len(res) == 1 && res[0].Kind == "const" {
+						vals[x] = res[0]
+					}
+				}
+				if len(vals) == 2 && !constant.Compare(vals[true].C, token.EQL, vals[false].C) {
+					out[f.Origin()] = vals
+					c.Analysed(FnName(sc))
+				}
+			}
+		}
+	}
+	return out
+}
+
+func decideComparator(c *Ctx, rule string, fn *ssa.Function, fwd *types.Var, dirVal map[bool]AV) {
 	p := c.P
 	name := FnName(fn)
 	// s1 / s2: the pointer values compared with nil, attributed to parameter 1 / 2
@@ -558,7 +653,7 @@ func decideComparator(c *Ctx, rule string, fn *ssa.Function, fwd *types.Var) {
 				return AV{Kind: "nonnil"}, true
 			}
 			if ff, base := loadedField(v); sameVar(ff, fwd) && base == ssa.Value(fn.Params[0]) {
-				return avBool(tc.forward), true
+				return dirVal[tc.forward], true
 			}
 			if i := loadOf(v); i >= 0 {
 				if isBool {
